@@ -2,11 +2,11 @@
    Field data-flow of Trajectory.slice / join / stack / atom_slice (term language: MD.Traj.Flow). *)
 Require Import MD.Traj.Model MD.Traj.Flow.
 
-Definition slice_flow : flow := mkFlow (FCopyIf (FIdx (FField SXyz))) (FCopyIf (FIdx (FField STime))) (FCopyIf (FIdx (FField SLen))) (FCopyIf (FIdx (FField SAng))) (FCopyIf (FField STop)) (FCopyIf (FField STraces)).
+Definition slice_flow : flow := mkFlow (FCopyIf (FIdx (FField SXyz))) (FCopyIf (FIdx (FField STime))) (FCopyIf (FIdx (FField SLen))) (FCopyIf (FIdx (FField SAng))) (FCopyIf (FField STop)) (FCopyIf (FArr1 (FIdx (FField STraces)))).
 Definition join_flow : flow := mkFlow (FConcat SXyz) (FConcat STime) (FConcat SLen) (FConcat SAng) (FDeep (FField STop)) FNone.
 Definition stack_flow : flow := mkFlow FHstack (FField STime) (FField SLen) (FField SAng) FTopJoin FNone.
 Definition atom_slice_flow : flow := mkFlow (FCopy (FAtoms (FField SXyz))) (FCopy (FField STime)) (FCopy (FField SLen)) (FCopy (FField SAng)) FSubset FNone.
-Definition atom_slice_inplace_flow : flow := mkFlow (FCopy (FAtoms (FField SXyz))) FKeep FKeep FKeep FSubset FKeep.
+Definition atom_slice_inplace_flow : flow := mkFlow (FCopy (FAtoms (FField SXyz))) FKeep FKeep FKeep FSubset FNone.
 
 (* the extracted flows are flows the model implements, for some variant of the two recorded defects *)
 Definition source_variant : option variant := variant_of_flows slice_flow atom_slice_inplace_flow.
